@@ -546,10 +546,11 @@ class SymNDArray:
     def _adv_get(self, k):
         items, bshape = _adv_items(self, k)
         src = self.snap()
-        nd = len(bshape)
 
-        def fn(idx, items=items, nd=nd):
+        def fn(idx, items=items):
             return src(tuple(it(idx) for it in items))
+        if len(bshape) == 0:
+            return fn(())
         out = SymNDArray.from_fn(bshape, fn, self.kind, origin='gather')
         return out
 
@@ -1126,47 +1127,84 @@ def lin_atom(shape, idx):
 
 
 def _adv_items(arr, k):
-    """advanced indexing where every item is an integer scalar or an integer array (broadcast together).
-    returns ([item getter over the broadcast index], broadcast shape)"""
-    if len(k) != arr.ndim:
-        raise OutOfReach('advanced indexing with %d items on a %d-d array' % (len(k), arr.ndim))
+    """advanced indexing: integer scalars / integer arrays (broadcast together), optionally mixed with slices
+    (numpy rule: if the advanced items are adjacent their broadcast axes replace them in place, otherwise they
+    come first).  returns ([per source axis: getter over the result index], result shape)"""
+    k = list(k)
+    if any(x is Ellipsis or x is None for x in k):
+        raise OutOfReach('Ellipsis / newaxis mixed with index arrays')
+    if len(k) > arr.ndim:
+        raise IndexError('too many indices for array')
+    k = k + [slice(None)] * (arr.ndim - len(k))
     items = []
+    adv_pos = []
     shapes = []
     for j, x in enumerate(k):
-        if isinstance(x, list):
-            x = array_from_list(x)
+        if isinstance(x, (list, tuple)):
+            x = array_from_list(list(x))
         if isinstance(x, SymNDArray):
+            if x.kind == 'bool':
+                raise OutOfReach('boolean mask mixed with other indices')
             if x.kind != 'int':
                 raise IndexError('arrays used as indices must be of integer (or boolean) type')
             shapes.append(x.shape)
-            items.append(x)
-        elif is_int_like(x):
-            c = I(x)
+            items.append(('arr', x))
+            adv_pos.append(j)
+        elif isinstance(x, slice):
+            if x.step is not None and not is_lit(x.step, 1):
+                raise OutOfReach('slice step in advanced indexing')
+            dim = arr.shape[j]
+            s0 = norm_bound(x.start, dim, 0)
+            e0 = norm_bound(x.stop, dim, dim)
+            check_slice(s0, e0, dim)
+            items.append(('sl', s0, e0 - s0))
+        elif is_int_like(x) or (isinstance(x, R) and x.is_const()):
+            c = I(_unwrap_int(x))
             if c.is_const() and c.const_value() < 0:
                 c = I(arr.shape[j]) + c
-            items.append(c)
+            items.append(('int', c))
+            adv_pos.append(j)
         else:
-            raise OutOfReach('mixing slices with index arrays (%r)' % (x,))
+            raise OutOfReach('unsupported index item %r' % (x,))
     bshape = broadcast_shapes(shapes) if shapes else ()
-    nd = len(bshape)
+    nb = len(bshape)
+    adjacent = (adv_pos == list(range(adv_pos[0], adv_pos[-1] + 1))) if adv_pos else True
+    sl_axes = [j for j, it in enumerate(items) if it[0] == 'sl']
+    # result layout
+    if adjacent:
+        first = adv_pos[0] if adv_pos else 0
+        before = [j for j in sl_axes if j < first]
+        after = [j for j in sl_axes if j > first]
+        rshape = [items[j][2] for j in before] + list(bshape) + [items[j][2] for j in after]
+        pos_of_slice = {j: t for t, j in enumerate(before)}
+        boff = len(before)
+        for t, j in enumerate(after):
+            pos_of_slice[j] = boff + nb + t
+    else:
+        rshape = list(bshape) + [items[j][2] for j in sl_axes]
+        boff = 0
+        pos_of_slice = {j: nb + t for t, j in enumerate(sl_axes)}
     getters = []
     for j, it in enumerate(items):
-        if isinstance(it, SymNDArray):
-            if it.blocks is not None and it.buf.state is None:
-                g = (lambda idx, it=it: it._blocks_at(idx))
+        if it[0] == 'arr':
+            a = it[1]
+            if a.blocks is not None and a.buf.state is None:
+                g0 = (lambda bidx, a=a: a._blocks_at(bidx))
             else:
-                g = bcast_getter(it.snap(), it.shape, nd)
+                g0 = bcast_getter(a.snap(), a.shape, nb)
             dim = arr.shape[j]
 
-            def gg(idx, g=g, dim=dim):
-                v = I(g(idx))
+            def gg(idx, g0=g0, dim=dim, boff=boff, nb=nb):
+                v = I(g0(tuple(idx[boff:boff + nb])))
                 if v.is_const() and v.const_value() < 0:
                     v = I(dim) + v
                 return v
             getters.append(gg)
+        elif it[0] == 'int':
+            getters.append(lambda idx, c=it[1]: c)
         else:
-            getters.append(lambda idx, c=it: c)
-    return getters, bshape
+            getters.append(lambda idx, s0=it[1], t=pos_of_slice[j]: s0 + I(idx[t]))
+    return getters, tuple(rshape)
 
 
 def _value_blocks(value, keyblocks, kind):
